@@ -3,7 +3,9 @@
 Ops: [0] LockRead  [1] LockWrite  [2,it] Begin  [3,it] Next  [4,it] Deref  [5,it] IsEnd
      [6,v] PushFront  [7,v] PushBack  [8,v] EmplaceFront  [9,v] EmplaceBack  [10,it] Erase  [11] Release
 cfg = [unfixed] (always 0 in the check: the model describes the repaired source).
-Values pushed in one case are pairwise distinct, so that the monitors can name elements.
+Values pushed in one case are pairwise distinct, so that the monitors can name elements.  A NEGATIVE value makes
+the element constructor throw inside allocator_traits::construct (K_CALL 1, K_THROW 0, ... K_CATCH 0): the
+storage is deallocated without ever being constructed or destroyed and the list is unchanged.
 """
 from events import K, PTR
 import rng as R
@@ -31,7 +33,10 @@ class _Vals:
 
 
 def _push(rng, vals):
-    return [rng.weighted([(4, PUSHF), (4, PUSHB), (1, EMPF), (1, EMPB)]), vals.fresh()]
+    v = vals.fresh()
+    if rng.chance(1, 6):
+        v = -v          # the element constructor throws inside push_* / emplace_* (the throw plan of the case)
+    return [rng.weighted([(4, PUSHF), (4, PUSHB), (1, EMPF), (1, EMPB)]), v]
 
 
 def _traverse(rng, it, maxlen):
@@ -137,10 +142,40 @@ def _race3(rng, vals):
     return {'cfg': [0], 'progs': progs, 'sched': sched}
 
 
+def _first2(rng, vals):
+    """the first two handles ever used on the list register concurrently: both read m_zombie_head = null
+    before either publishes its record (the empty-log boundary of rcu_read_lock).  One of them is a reader that
+    then pauses on an element, the other populates the list and releases; a third thread erases that element and
+    releases (its release, or a short-lived handle's, reclaims); the paused reader then dereferences / advances."""
+    npush = rng.range(2, 3)
+    b = rng.range(0, npush - 1)
+    reader = [[LOCKR], [BEGIN, 0]] + [[NEXT, 0]] * b + [[DEREF, 0], [NEXT, 0], [DEREF, 0], [ISEND, 0], [RELEASE]]
+    writer = [[LOCKW]] + [[PUSHB, vals.fresh()] for _ in range(npush)] + [[RELEASE]]
+    if rng.chance(1, 2):
+        writer += [[LOCKR], [BEGIN, 0], [RELEASE]]
+    a = rng.range(0, npush - 1) if rng.chance(1, 3) else b
+    eraser = [[LOCKW], [BEGIN, 0]] + [[NEXT, 0]] * a + [[ERASE, 0], [RELEASE]]
+    if rng.chance(1, 2):
+        eraser += [[LOCKR], [BEGIN, 0], [RELEASE]]
+    progs = [reader, writer, eraser]
+    first, second = (0, 1) if rng.chance(3, 4) else (1, 0)
+    # lock (1 step), invoke (1), allocate, construct, load of m_zombie_head (3): both threads have read null
+    sched = [(first, 0)] * rng.range(4, 6) + [(second, 0)] * rng.range(4, 6)
+    sched += [(first, 0)] * rng.range(1, 3) + [(second, 0)] * rng.range(1, 3)          # both publish
+    sched += [(1, 0)] * rng.range(9 * npush + 4, 9 * npush + 16)                        # the list is built, the writer releases
+    sched += [(0, 0)] * rng.range(2 * b + 2, 2 * b + 8)                                 # the reader walks to its element
+    sched += [(2, 0)] * rng.range(30, 70)                                               # erase and release
+    sched += [(1, 0)] * rng.range(0, 30)                                                # a short-lived handle
+    sched += [(0, 0)] * rng.range(2, 20)                                                # the paused reader goes on
+    for _ in range(rng.range(1, 5)):
+        sched += [(rng.below(3), rng.weighted(list(CW)))] * rng.range(3, 30)
+    return {'cfg': [0], 'progs': progs, 'sched': sched}
+
+
 def gen(rng, tier, spec):
     vals = _Vals()
     if rng.chance(1, 2 if tier == 'search' else 7):
-        return _race3(rng, vals)
+        return _first2(rng, vals) if rng.chance(1, 3) else _race3(rng, vals)
     nt = rng.weighted([(1, 1), (6, 2), (5, 3)])
     npre = rng.weighted([(1, 0), (2, 1), (3, 2), (3, 3), (2, 4)])
     pre = []
@@ -210,6 +245,21 @@ def _ops(case, lines):
     return out
 
 
+def _open_handle(case, lines):
+    """some thread ended its program holding a handle (a client leak: its record legitimately outlives the list)"""
+    held = {}
+    for op in _ops(case, lines):
+        c = op['op'][0]
+        if op['ret'] is None and op['i1'] is None:
+            continue
+        bad = any(e[1] == K['FAULT'] and e[3] == 9 for e in op['evs'])
+        if c in (LOCKR, LOCKW) and not bad:
+            held[op['t']] = True
+        elif c == RELEASE and not bad:
+            held[op['t']] = False
+    return any(held.values())
+
+
 def mon_fault(case, lines):
     """any K_FAULT other than the client-misuse code 9: ledger (1), null destroy/deallocate (2), use after free (3)"""
     names = {1: 'allocator ledger violation', 2: 'destroy/deallocate of a null pointer', 3: 'access to a cell that is not alive (use after free)'}
@@ -226,10 +276,15 @@ def mon_ledger(case, lines):
     """every cell: allocate, construct, destroy, deallocate exactly once each and in this order; nothing left at the end"""
     order = []            # cell number -> object id (allocation order)
     st = {}               # object id -> list of ledger kinds seen
+    raw = set()           # storage whose construction threw: allocate, deallocate and nothing else
+    last_alloc = {}       # thread -> object it allocated last
     for i, t, k, o, v, m in _events(lines):
         if k == K['ALLOC']:
             order.append(o)
             st[o] = [k]
+            last_alloc[t] = o
+        elif k == K['THROW'] and t in last_alloc and st.get(last_alloc[t]) == [K['ALLOC']]:
+            raw.add(last_alloc[t])
         elif k in (K['CONSTRUCT'], K['DESTROY'], K['DEALLOC']):
             if o == 0:
                 return 'thread %d: %s of a null pointer at trace line %d' % (t, {51: 'construct', 52: 'destroy', 53: 'deallocate'}[k], i)
@@ -241,14 +296,17 @@ def mon_ledger(case, lines):
                 st[order[f[1]]].append(f[0])
         if f and f[0] == -1:
             destroyed_list = True
-            if f[2] != 0:
+            if f[2] != 0 and not _open_handle(case, lines):
                 return '%d of %d cells were never deallocated after ~rcu_list' % (f[2], f[1])
-    full = [K['ALLOC'], K['CONSTRUCT'], K['DESTROY'], K['DEALLOC']]
+    full0 = [K['ALLOC'], K['CONSTRUCT'], K['DESTROY'], K['DEALLOC']]
     for n, o in enumerate(order):
         seq = st[o]
+        full = [K['ALLOC'], K['DEALLOC']] if o in raw else full0
+        if o in raw and seq != full[:len(seq)]:
+            return 'cell %d (object %d): construction threw, yet the allocator calls are %s (a never-constructed cell must only be deallocated)' % (n, o, seq)
         if seq != full[:len(seq)]:
             return 'cell %d (object %d): allocator calls %s are not a prefix of allocate, construct, destroy, deallocate' % (n, o, seq)
-        if destroyed_list and seq != full:
+        if destroyed_list and seq != full and not _open_handle(case, lines):
             return 'cell %d (object %d) ended with allocator calls %s' % (n, o, seq)
     # "nothing erased => a release frees only handle records"
     erased = any(e[1] == K['ALLOC'] and e[3] == 2 for op in _ops(case, lines) if op['op'][0] == ERASE for e in op['evs'])
@@ -257,7 +315,7 @@ def mon_ledger(case, lines):
         for i, t, k, o, v, m in _events(lines):
             if k == K['ALLOC']:
                 kinds[o] = v
-            if k in (K['DESTROY'], K['DEALLOC']) and kinds.get(o) == 1:
+            if k in (K['DESTROY'], K['DEALLOC']) and kinds.get(o) == 1 and o not in raw:
                 return 'nothing was erased, yet thread %d destroyed/deallocated list node %d at trace line %d' % (t, o, i)
     return None
 
@@ -269,6 +327,8 @@ def _mutations(case, lines):
         c = op['op'][0]
         if c not in PUSHES and c != ERASE:
             continue
+        if any(e[1] == K['THROW'] for e in op['evs']):
+            continue            # the constructor threw: nothing was inserted
         lock = [e for e in op['evs'] if e[1] == K['LOCK']]
         if not lock:
             continue
